@@ -496,19 +496,343 @@ pub proof fn lemma_mapped_mentions_fwd<F>(o: Op<F>, n: Op<F>, f: spec_fn(Witness
 
 pub open spec fn rootf(rw: RW) -> spec_fn(WitnessId) -> WitnessId { |x: WitnessId| root(rw, x) }
 
+/// every input op is covered by some kept op under the rewrite rw
+pub open spec fn covered_by_some<F>(o: Op<F>, res: Seq<Op<F>>, rw: RW) -> bool {
+    exists|j: int| 0 <= j < res.len() && #[trigger] covered(o, res[j], rootf(rw))
+}
+pub open spec fn all_covered<F>(ops0: Seq<Op<F>>, res: Seq<Op<F>>, rw: RW) -> bool {
+    forall|k: int| 0 <= k < ops0.len() ==> covered_by_some(#[trigger] ops0[k], res, rw)
+}
+
 /// C03 as one statement: the kept list, satisfied by an ARBITRARY assignment w, forces every input op
 /// (read through the final rewrite).  Nothing here refers to the honest runner.
 pub proof fn theorem_dedup_no_relation_dropped<F: Field>(ops0: Seq<Op<F>>, res: Seq<Op<F>>, rw: RW, w: Asg<F>, pubs: spec_fn(usize) -> F)
     requires
-        forall|k: int| 0 <= k < ops0.len() ==> exists|j: int| 0 <= j < res.len() && covered(#[trigger] ops0[k], res[j], rootf(rw)),
+        all_covered(ops0, res, rw),
         forall|j: int| 0 <= j < res.len() ==> sat_op(#[trigger] res[j], w, pubs),
     ensures
         forall|k: int| 0 <= k < ops0.len() ==> sat_op(#[trigger] ops0[k], comp(w, rootf(rw)), pubs),
 {
     assert forall|k: int| 0 <= k < ops0.len() implies sat_op(#[trigger] ops0[k], comp(w, rootf(rw)), pubs) by {
-        let j = choose|j: int| 0 <= j < res.len() && covered(ops0[k], res[j], rootf(rw));
+        assert(covered_by_some(ops0[k], res, rw));
+        let j = choose|j: int| 0 <= j < res.len() && #[trigger] covered(ops0[k], res[j], rootf(rw));
         lemma_covered_sat(ops0[k], res[j], rootf(rw), w, pubs);
     }
 }
 
+} // verus!
+
+verus! {
+// ================================================================ Deduplicator::run — loop invariant and its three steps
+
+pub proof fn lemma_root_total_aux(rw: RW, stamp: Map<WitnessId, nat>, bound: nat, x: WitnessId)
+    requires stamped(rw, stamp, bound)
+    ensures exists|r: WitnessId| root_of(rw, x, r)
+    decreases (if rw.dom().contains(x) { bound - stamp[x] } else { 0 })
+{
+    if !rw.dom().contains(x) {
+        lemma_root_outside(rw, x);
+    } else {
+        let y = rw[x];
+        if rw.dom().contains(y) { assert(stamp[x] < stamp[rw[x]]); }
+        lemma_root_total_aux(rw, stamp, bound, y);
+        let r = choose|r: WitnessId| root_of(rw, y, r);
+        let n = choose|n: nat| iter(rw, y, n) == r;
+        reveal_with_fuel(iter, 2);
+        assert(iter(rw, x, n + 1) == r);
+        assert(root_of(rw, x, r));
+    }
+}
+/// in an acyclic map every id has a root, and `root` names it
+pub proof fn lemma_root_total(rw: RW, x: WitnessId)
+    requires acyclic(rw)
+    ensures root_of(rw, x, root(rw, x)), !rw.dom().contains(root(rw, x))
+{
+    let (stamp, bound) = choose|stamp: Map<WitnessId, nat>, bound: nat| stamped(rw, stamp, bound);
+    lemma_root_total_aux(rw, stamp, bound, x);
+}
+
+pub open spec fn alu_key<F>(op: Op<F>) -> AluKey {
+    match op {
+        Op::Alu { kind, a, b, c, out, intermediate_out } => key_of(kind, a, b, c, intermediate_out),
+        _ => arbitrary(),
+    }
+}
+pub open spec fn alu_out<F>(op: Op<F>) -> WitnessId {
+    match op { Op::Alu { out, .. } => out, _ => arbitrary() }
+}
+pub open spec fn is_alu<F>(op: Op<F>) -> bool { op is Alu }
+
+/// the invariant of the dedup scan after `i` input ops
+pub open spec fn inv<F>(ops0: Seq<Op<F>>, i: int, res: Seq<Op<F>>, rw: RW, seen: Map<AluKey, WitnessId>,
+                        seen_idx: Map<AluKey, int>, cover: Seq<int>) -> bool {
+    &&& 0 <= i <= ops0.len()
+    &&& acyclic(rw)
+    // (B) no slot that a kept op mentions is ever rewritten
+    &&& forall|x: WitnessId| #[trigger] list_mentions(res, x) ==> !rw.dom().contains(x)
+    // (C) every slot of a processed input op resolves to a slot of some kept op
+    &&& forall|k: int, x: WitnessId| 0 <= k < i && #[trigger] mentions(ops0[k], x) ==> list_mentions(res, root(rw, x))
+    // (D) the `seen` table points at kept ALU ops with that key
+    &&& forall|key: AluKey| #[trigger] seen.contains_key(key) ==> seen_idx.contains_key(key) && 0 <= seen_idx[key] < res.len()
+            && is_alu(res[seen_idx[key]]) && alu_key(res[seen_idx[key]]) == key && alu_out(res[seen_idx[key]]) == seen[key]
+    // (E) every processed input op is covered by a kept op
+    &&& cover.len() == i
+    &&& forall|k: int| 0 <= k < i ==> 0 <= #[trigger] cover[k] < res.len() && covered(ops0[k], res[cover[k]], rootf(rw))
+    &&& forall|k: int| 0 <= k < ops0.len() ==> wf_op(#[trigger] ops0[k])
+    &&& forall|j: int| 0 <= j < res.len() ==> wf_op(#[trigger] res[j])
+}
+
+proof fn lemma_list_mentions_push<F>(res: Seq<Op<F>>, op: Op<F>, x: WitnessId)
+    ensures list_mentions(res.push(op), x) == (list_mentions(res, x) || mentions(op, x))
+{
+    let r2 = res.push(op);
+    if list_mentions(res, x) {
+        let j = choose|j: int| 0 <= j < res.len() && mentions(#[trigger] res[j], x);
+        assert(r2[j] == res[j]);
+    }
+    if mentions(op, x) { assert(r2[res.len() as int] == op); }
+    if list_mentions(r2, x) {
+        let j = choose|j: int| 0 <= j < r2.len() && mentions(#[trigger] r2[j], x);
+        if j < res.len() { assert(r2[j] == res[j]); } else { assert(r2[j] == op); }
+    }
+}
+
+proof fn lemma_mapped_wf<F>(o: Op<F>, n: Op<F>, f: spec_fn(WitnessId) -> WitnessId)
+    requires op_mapped(o, n, f), wf_op(o)
+    ensures wf_op(n)
+{}
+
+/// the slots of an op rewritten by rootf(rw) are roots, so resolving them again is the identity
+proof fn lemma_mapped_roots<F>(rw: RW, o: Op<F>, n: Op<F>, y: WitnessId)
+    requires acyclic(rw), op_mapped(o, n, rootf(rw)), mentions(n, y)
+    ensures !rw.dom().contains(y), root(rw, y) == y
+{
+    lemma_mapped_mentions(o, n, rootf(rw), y);
+    let x = choose|x: WitnessId| mentions(o, x) && rootf(rw)(x) == y;
+    lemma_root_total(rw, x);
+    lemma_root_outside(rw, y);
+}
+
+/// key computed by detect_duplicate on an already-rewritten ALU op is the op's own key
+proof fn lemma_key_of_rewritten<F>(rw: RW, o: Op<F>, n: Op<F>)
+    requires acyclic(rw), op_mapped(o, n, rootf(rw)), is_alu(n)
+    ensures n matches Op::Alu { kind, a, b, c, out, intermediate_out }
+        && key_of(kind, root(rw, a), root(rw, b), omap(c, rootf(rw)), omap(intermediate_out, rootf(rw))) == alu_key(n)
+{
+    match n {
+        Op::Alu { kind, a, b, c, out, intermediate_out } => {
+            lemma_mapped_roots(rw, o, n, a);
+            lemma_mapped_roots(rw, o, n, b);
+            if c.is_some() { lemma_mapped_roots(rw, o, n, c.unwrap()); }
+            if intermediate_out.is_some() { lemma_mapped_roots(rw, o, n, intermediate_out.unwrap()); }
+        }
+        _ => {}
+    }
+}
+
+/// step 1: the op is kept
+pub proof fn lemma_inv_push<F>(ops0: Seq<Op<F>>, i: int, res: Seq<Op<F>>, rw: RW, seen: Map<AluKey, WitnessId>,
+                               seen_idx: Map<AluKey, int>, cover: Seq<int>, op1: Op<F>, seen2: Map<AluKey, WitnessId>)
+    requires
+        inv(ops0, i, res, rw, seen, seen_idx, cover), i < ops0.len(),
+        op_mapped(ops0[i], op1, rootf(rw)),
+        seen2 == seen || (is_alu(op1) && seen2 == seen.insert(alu_key(op1), alu_out(op1))),
+    ensures
+        inv(ops0, i + 1, res.push(op1), rw, seen2,
+            if seen2 == seen { seen_idx } else { seen_idx.insert(alu_key(op1), res.len() as int) }, cover.push(res.len() as int)),
+{
+    let res2 = res.push(op1);
+    let idx2 = if seen2 == seen { seen_idx } else { seen_idx.insert(alu_key(op1), res.len() as int) };
+    let cover2 = cover.push(res.len() as int);
+    let f = rootf(rw);
+    assert forall|x: WitnessId| #[trigger] list_mentions(res2, x) implies !rw.dom().contains(x) by {
+        lemma_list_mentions_push(res, op1, x);
+        if !list_mentions(res, x) { lemma_mapped_roots(rw, ops0[i], op1, x); }
+    }
+    assert forall|k: int, x: WitnessId| 0 <= k < i + 1 && #[trigger] mentions(ops0[k], x) implies list_mentions(res2, root(rw, x)) by {
+        lemma_list_mentions_push(res, op1, root(rw, x));
+        if k == i { lemma_mapped_mentions_fwd(ops0[i], op1, f, x); }
+    }
+    assert forall|key: AluKey| #[trigger] seen2.contains_key(key) implies idx2.contains_key(key) && 0 <= idx2[key] < res2.len()
+            && is_alu(res2[idx2[key]]) && alu_key(res2[idx2[key]]) == key && alu_out(res2[idx2[key]]) == seen2[key] by {
+        if seen2 != seen && key == alu_key(op1) {
+            assert(res2[res.len() as int] == op1);
+        } else {
+            assert(seen.contains_key(key));
+            assert(res2[seen_idx[key]] == res[seen_idx[key]]);
+        }
+    }
+    assert forall|k: int| 0 <= k < i + 1 implies 0 <= #[trigger] cover2[k] < res2.len() && covered(ops0[k], res2[cover2[k]], f) by {
+        if k == i { assert(res2[res.len() as int] == op1); } else { assert(cover2[k] == cover[k]); assert(res2[cover[k]] == res[cover[k]]); }
+    }
+    assert forall|j: int| 0 <= j < res2.len() implies wf_op(#[trigger] res2[j]) by {
+        if j == res.len() { lemma_mapped_wf(ops0[i], op1, f); } else { assert(res2[j] == res[j]); }
+    }
+}
+
+/// facts shared by the two duplicate steps
+proof fn lemma_dup_facts<F>(ops0: Seq<Op<F>>, i: int, res: Seq<Op<F>>, rw: RW, seen: Map<AluKey, WitnessId>,
+                            seen_idx: Map<AluKey, int>, cover: Seq<int>, op1: Op<F>)
+    requires
+        inv(ops0, i, res, rw, seen, seen_idx, cover), i < ops0.len(),
+        op_mapped(ops0[i], op1, rootf(rw)), is_alu(op1), seen.contains_key(alu_key(op1)),
+    ensures
+        ({ let j = seen_idx[alu_key(op1)];
+           &&& 0 <= j < res.len() && is_alu(res[j]) && alu_key(res[j]) == alu_key(op1) && alu_out(res[j]) == seen[alu_key(op1)]
+           &&& !rw.dom().contains(seen[alu_key(op1)]) && root(rw, seen[alu_key(op1)]) == seen[alu_key(op1)]
+           &&& !rw.dom().contains(alu_out(op1))
+           &&& wf_op(op1) && wf_op(res[j])
+           // every slot of op1 other than its out is a slot of the kept twin
+           &&& forall|y: WitnessId| mentions(op1, y) ==> y == alu_out(op1) || mentions(res[j], y)
+        }),
+{
+    let key = alu_key(op1);
+    let j = seen_idx[key];
+    let canonical = seen[key];
+    assert(mentions(res[j], canonical));
+    assert(list_mentions(res, canonical));
+    lemma_root_outside(rw, canonical);
+    assert(mentions(op1, alu_out(op1)));
+    lemma_mapped_roots(rw, ops0[i], op1, alu_out(op1));
+    lemma_mapped_wf(ops0[i], op1, rootf(rw));
+    match op1 {
+        Op::Alu { kind, a, b, c, out, intermediate_out } => {
+            match res[j] {
+                Op::Alu { kind: k2, a: a2, b: b2, c: c2, out: o2, intermediate_out: io2 } => {
+                    lemma_same_key_same_slots(kind, a, b, c, intermediate_out, k2, a2, b2, c2, io2);
+                }
+                _ => {}
+            }
+        }
+        _ => {}
+    }
+}
+
+/// step 2: duplicate whose out already is the canonical slot — the op is dropped, nothing is rewritten
+pub proof fn lemma_inv_dup_same<F>(ops0: Seq<Op<F>>, i: int, res: Seq<Op<F>>, rw: RW, seen: Map<AluKey, WitnessId>,
+                                   seen_idx: Map<AluKey, int>, cover: Seq<int>, op1: Op<F>)
+    requires
+        inv(ops0, i, res, rw, seen, seen_idx, cover), i < ops0.len(),
+        op_mapped(ops0[i], op1, rootf(rw)), is_alu(op1), seen.contains_key(alu_key(op1)),
+        alu_out(op1) == seen[alu_key(op1)],
+    ensures
+        inv(ops0, i + 1, res, rw, seen, seen_idx, cover.push(seen_idx[alu_key(op1)])),
+{
+    lemma_dup_facts(ops0, i, res, rw, seen, seen_idx, cover, op1);
+    let f = rootf(rw);
+    let j = seen_idx[alu_key(op1)];
+    let cover2 = cover.push(j);
+    lemma_key_of_rewritten(rw, ops0[i], op1);
+    assert forall|k: int, x: WitnessId| 0 <= k < i + 1 && #[trigger] mentions(ops0[k], x) implies list_mentions(res, root(rw, x)) by {
+        if k == i {
+            lemma_mapped_mentions_fwd(ops0[i], op1, f, x);
+            if root(rw, x) == alu_out(op1) { assert(mentions(res[j], alu_out(res[j]))); }
+        }
+    }
+    assert(covered(ops0[i], res[j], f));
+    assert forall|k: int| 0 <= k < i + 1 implies 0 <= #[trigger] cover2[k] < res.len() && covered(ops0[k], res[cover2[k]], f) by {
+        if k < i { assert(cover2[k] == cover[k]); }
+    }
+}
+
+/// step 3: duplicate with a different out — its out is rewritten to the canonical slot.
+/// HYPOTHESIS H (named, see known_findings.json C03-alias): the duplicate's out is mentioned by no kept op.
+pub proof fn lemma_inv_dup_insert<F>(ops0: Seq<Op<F>>, i: int, res: Seq<Op<F>>, rw: RW, seen: Map<AluKey, WitnessId>,
+                                     seen_idx: Map<AluKey, int>, cover: Seq<int>, op1: Op<F>)
+    requires
+        inv(ops0, i, res, rw, seen, seen_idx, cover), i < ops0.len(),
+        op_mapped(ops0[i], op1, rootf(rw)), is_alu(op1), seen.contains_key(alu_key(op1)),
+        alu_out(op1) != seen[alu_key(op1)],
+        !list_mentions(res, alu_out(op1)),          // H
+    ensures
+        inv(ops0, i + 1, res, rw.insert(alu_out(op1), seen[alu_key(op1)]), seen, seen_idx, cover.push(seen_idx[alu_key(op1)])),
+{
+    lemma_dup_facts(ops0, i, res, rw, seen, seen_idx, cover, op1);
+    let f = rootf(rw);
+    let d = alu_out(op1);
+    let c = seen[alu_key(op1)];
+    let rw2 = rw.insert(d, c);
+    let g = rootf(rw2);
+    let j = seen_idx[alu_key(op1)];
+    let cover2 = cover.push(j);
+    lemma_acyclic_insert(rw, d, c);
+    lemma_key_of_rewritten(rw, ops0[i], op1);
+    // roots after the insertion
+    assert forall|x: WitnessId| root(rw2, x) == (if root(rw, x) == d { c } else { root(rw, x) }) by {
+        lemma_root_total(rw, x);
+        lemma_root_insert(rw, d, c, x, root(rw, x));
+    }
+    assert(mentions(res[j], c));
+    assert(list_mentions(res, c));
+    assert forall|k: int, x: WitnessId| 0 <= k < i + 1 && #[trigger] mentions(ops0[k], x) implies list_mentions(res, root(rw2, x)) by {
+        if k == i { lemma_mapped_mentions_fwd(ops0[i], op1, f, x); }
+    }
+    // f and g agree on every slot of an earlier op, and on every non-out slot of this one
+    assert forall|k: int| 0 <= k < i + 1 implies 0 <= #[trigger] cover2[k] < res.len() && covered(ops0[k], res[cover2[k]], g) by {
+        if k < i {
+            assert(cover2[k] == cover[k]);
+            assert forall|x: WitnessId| mentions(ops0[k], x) implies f(x) == g(x) by {
+                assert(list_mentions(res, root(rw, x)));
+            }
+            lemma_covered_cong(ops0[k], res[cover[k]], f, g);
+        } else {
+            match ops0[i] {
+                Op::Alu { kind, a, b, c: c0, out, intermediate_out } => {
+                    assert(mentions(ops0[i], a)); assert(mentions(ops0[i], b)); assert(mentions(ops0[i], out));
+                    lemma_mapped_mentions_fwd(ops0[i], op1, f, a);
+                    lemma_mapped_mentions_fwd(ops0[i], op1, f, b);
+                    if c0.is_some() { assert(mentions(ops0[i], c0.unwrap())); lemma_mapped_mentions_fwd(ops0[i], op1, f, c0.unwrap()); }
+                    if intermediate_out.is_some() { assert(mentions(ops0[i], intermediate_out.unwrap())); lemma_mapped_mentions_fwd(ops0[i], op1, f, intermediate_out.unwrap()); }
+                    // operands of op1 that equal d would be mentioned by res[j] — excluded by H
+                    assert(forall|y: WitnessId| mentions(res[j], y) ==> y != d) by {
+                        assert forall|y: WitnessId| mentions(res[j], y) implies y != d by { assert(list_mentions(res, y)); }
+                    }
+                    match op1 {
+                        Op::Alu { kind: k1, a: a1, b: b1, c: c1, out: o1, intermediate_out: io1 } => {
+                            assert(a1 != d || a1 == o1);
+                            assert(omap(c0, g) == omap(c0, f)) by {
+                                if c0.is_some() { assert(mentions(op1, f(c0.unwrap()))); }
+                            }
+                            assert(omap(intermediate_out, g) == omap(intermediate_out, f)) by {
+                                if intermediate_out.is_some() { assert(mentions(op1, f(intermediate_out.unwrap()))); }
+                            }
+                            // a1 / b1 are mentioned by res[j] (same slots), hence != d
+                            assert(mentions(op1, a1) && mentions(op1, b1));
+                            assert(g(a) == f(a) && g(b) == f(b)) by {
+                                lemma_opnd_not_out(op1, res[j], d);
+                            }
+                        }
+                        _ => {}
+                    }
+                }
+                _ => {}
+            }
+        }
+    }
+    assert forall|x: WitnessId| #[trigger] list_mentions(res, x) implies !rw2.dom().contains(x) by {}
+}
+
+/// under H the operands of the duplicate differ from its out (they are slots of the kept twin)
+proof fn lemma_opnd_not_out<F>(op1: Op<F>, twin: Op<F>, d: WitnessId)
+    requires
+        is_alu(op1), is_alu(twin), alu_key(op1) == alu_key(twin), wf_op(op1), wf_op(twin),
+        forall|y: WitnessId| mentions(twin, y) ==> y != d,
+    ensures
+        op1 matches Op::Alu { a, b, c, intermediate_out, .. } && a != d && b != d && !in_opt(c, d) && !in_opt(intermediate_out, d),
+{
+    match op1 {
+        Op::Alu { kind, a, b, c, out, intermediate_out } => {
+            match twin {
+                Op::Alu { kind: k2, a: a2, b: b2, c: c2, out: o2, intermediate_out: io2 } => {
+                    lemma_same_key_same_slots(kind, a, b, c, intermediate_out, k2, a2, b2, c2, io2);
+                    assert(mentions(twin, a2) && mentions(twin, b2));
+                    if c2.is_some() { assert(mentions(twin, c2.unwrap())); }
+                    if io2.is_some() { assert(mentions(twin, io2.unwrap())); }
+                }
+                _ => {}
+            }
+        }
+        _ => {}
+    }
+}
 } // verus!
